@@ -3,7 +3,7 @@ import vlib
 from checks import concfam, apifam
 GUARDS = {"NoOverlap", "BoundHeapInsideArena", "ExclusiveStaysPrivate", "NothingReservedBehind", "RefillComplete", "ContentsKept.gen", "ContentsKept.bytes",
           "ObsOfLiveBlock", "FreeOfLiveBlock", "DestructiveAvoidsLive", "LiveAccessible", "Invariant.Inv", "CheckAllComplete", "FullGivesNull"}
-BGUARDS = {"ClaimInsideBitmap", "ClaimAvoidsBlocked", "ClaimsDisjoint", "UnclaimOwn", "UnclaimSawAllSet", "AllFreeAtEnd", "NothingHeldAtEnd", "NoCrash"}
+BGUARDS = {"ClaimInsideBitmap", "ClaimAvoidsBlocked", "ClaimsDisjoint", "UnclaimOwn", "UnclaimSawAllSet", "AllFreeAtEnd", "NothingHeldAtEnd", "NothingBehindBitmap", "NoCrash"}
 def run(tier, seed):
     q = 0 if tier == "quick" else 1
     rof = {"MIMALLOC_ABANDONED_RECLAIM_ON_FREE": "1"}
